@@ -505,3 +505,41 @@ def context_inheritance(prog, rep, rule="E3.ctx"):
                       "strict redefines %s, lazy redefines %s" % (sorted(m["strict"]), sorted(m["lazy"])))
     rep.floor(rule, n, 12, "nested execution contexts")
     return n
+
+
+# ---------------------------------------------------------------------------------------
+# list / set literals and comprehensions build a value of their own kind
+
+def collection_kinds(prog, rep, rule="E3.kind"):
+    """a set literal / set comprehension yields a set (de-duplicated, in set order), a list literal / comprehension a list — in both
+    modes and on every path (a fast path that reuses the other kind's conversion changes the value's type)"""
+    rep.rule(rule, "set literals and comprehensions only build set values (Value::Set / LazySet), list ones only list values (Value::List / LazyList / Vec conversions), in strict and lazy mode")
+    n = 0
+    for f in sorted(prog.shape_fns(), key=lambda x: x.id):
+        if f.body is None or not f.file.startswith("src/execution"):
+            continue
+        owner = (f.self_path or "").rsplit("::", 1)[-1]
+        if f.kind == "closure" and f.parent in prog.fns:
+            owner = (prog.fns[f.parent].self_path or "").rsplit("::", 1)[-1]
+        if owner in ("SetLiteral", "SetComprehension", "LazySet"):
+            kind, other_variant, other_src = "set", ("List",), r"^<std::vec::Vec<[^<>]*(Value|LazyValue)> as std::convert::(Into|From)|LazyList as std::convert::Into"
+        elif owner in ("ListLiteral", "ListComprehension", "LazyList"):
+            kind, other_variant, other_src = "list", ("Set",), r"^<std::collections::BTreeSet<[^<>]*Value> as std::convert::(Into|From)|LazySet as std::convert::Into"
+        else:
+            continue
+        if f.trait in ("std::fmt::Display", "std::fmt::Debug"):
+            continue
+        n += 1
+        bad = []
+        for b in sorted(f.body.reachable()):
+            for st in f.body.blocks[b]["stmts"]:
+                if st["k"] == "assign" and st["rv"]["k"] == "aggregate" and (st["rv"].get("adt") or "").endswith(("graph::Value", "values::LazyValue")) and st["rv"].get("variant") in other_variant:
+                    bad.append("%s::%s at %s" % (st["rv"]["adt"].rsplit("::", 1)[-1], st["rv"]["variant"], sp_str(st["sp"])))
+        for b, t in f.body.calls():
+            fr = callee_fn(t)
+            if fr and re.search(other_src, fr.get("defargs") or ""):
+                bad.append("%s at %s" % ((fr.get("defargs") or "")[:80], sp_str(t["sp"])))
+        rep.check(not bad, rule, "%s :: builds a %s" % (f.id, kind), f.loc(), "only %s values are built" % kind,
+                  "a %s expression can yield a value of the other kind: %s" % (kind, "; ".join(bad[:2])))
+    rep.floor(rule, n, 10, "list/set literal and comprehension handlers")
+    return n
